@@ -36,7 +36,10 @@ Definition of_cinstr (reg : list Z) (c : cinstr) : instr :=
    reader is given the offset of that script as end offset), its offset, the instructions asked for,
    what the writer did (the bytes of the file from the script's offset on) and what the reader returned *)
 Inductive c03case :=
-| KScript (f : fmt) (next : bool) (start : Z) (l : list cinstr) (w : ires (list seg)) (r : ires (list cinstr)).
+| KScript (f : fmt) (next : bool) (start : Z) (l : list cinstr) (w : ires (list seg)) (r : ires (list cinstr))
+(* a string list of a stack-ECL file: the strings as the bytes of their Shift-JIS encoding, the bytes that must
+   follow the list in the file (the next magic), and the bytes of the file from the start of the list *)
+| KStrList (ss : list (list seg)) (follow : list seg) (region : list seg).
 
 Fixpoint zlist_eqb (a b : list Z) : bool :=
   match a, b with
@@ -74,6 +77,16 @@ Definition map_ires {A B} (g : A -> B) (i : ires A) : ires B :=
 
 Definition model_of (c : c03case) : bool :=
   match c with
+  | KStrList ss follow region =>
+      let reg := unrle region in
+      let strs := map unrle ss in
+      prefixb (write_string_list strs ++ unrle follow) reg &&
+      match read_string_list (length strs) reg with
+      | Some (back, rest) => prefixb (unrle follow) rest &&
+          (fix eq (a b : list (list Z)) : bool :=
+             match a, b with [], [] => true | x :: t1, y :: t2 => zlist_eqb x y && eq t1 t2 | _, _ => false end) back strs
+      | None => false
+      end
   | KScript f next start cl w r =>
       let reg := match w with IOk segs => unrle segs | _ => [] end in
       let l := map (of_cinstr reg) cl in
